@@ -169,6 +169,28 @@ def judge_mutant(ctx, t, cls, data, klass, structural):
             ctx.violation('C04|UNPACK-wrong-value|' + klass, 'got %r model %r' % (top, ref[1]), case)
 
 
+SWAP = {'key_hash': 'address', 'address': 'key_hash', 'nat': 'int', 'int': 'nat', 'mutez': 'nat', 'string': 'bytes', 'bytes': 'string', 'timestamp': 'int',
+        'key': 'bytes', 'signature': 'bytes', 'chain_id': 'bytes', 'bool': 'unit', 'unit': 'bool'}
+
+
+def retype(rng, t, p=0.5):
+    """A type of the same shape in which some leaves (and some list/set constructors) are exchanged for look-alikes: the bytes
+    PACK made at `t` are then offered to UNPACK at the result."""
+    if len(t) == 1:
+        return (SWAP[t[0]],) if t[0] in SWAP and rng.random() < p else t
+    if t[0] == 'lambda':
+        return t
+    args = tuple(retype(rng, a, p) for a in t[1:])
+    prim = t[0]
+    if prim in ('list', 'set') and rng.random() < 0.3:
+        prim = 'set' if prim == 'list' else 'list'
+    if prim in ('set', 'map') and not T.comparable(args[0]):
+        prim = 'list' if prim == 'set' else prim
+        if prim == 'map':
+            return t
+    return (prim,) + args
+
+
 def run(ctx):
     rng = ctx.rng
     n = ctx.pick(2400, 160000) // ctx.nshards
@@ -202,6 +224,11 @@ def run(ctx):
                     ctx.violation('C04|annotated-pack-raises|%s|%s' % (type(e).__name__, feat(t, v)), repr(e)[:300], case)
         if i % 4 == 0:
             instr_agreement(ctx, t, v, packed)
+        if i % 3 == 1:
+            t2 = retype(rng, t)
+            if t2 != t:
+                ctx.count('cross_type_unpacks')
+                judge_mutant(ctx, t2, None, packed, 'cross-type', False)
         if i % (2 if ctx.quick else 6) == 0:
             cls = None
             for klass, m in GM.structural_mutants(rng, packed, 6):
@@ -242,6 +269,7 @@ def run(ctx):
     ctx.require('lambdas_over_unpackable_types', 10)
     ctx.require('pack_calls', 100)
     ctx.require('unpack_calls', 50)
+    ctx.require('cross_type_unpacks', 50)
     ctx.require('mutants', 100)
     ctx.require('instr_runs', 20)
 
